@@ -45,6 +45,10 @@ type ClientNode struct {
 	cancel    context.CancelFunc
 	Refs      map[string]*signaling_client.ClientPeerRef // by remote party name
 	refCancel map[string]context.CancelFunc
+	// ManualRecv: no receive loop; the application receives when the driver says so
+	// (StartRecv), one call at a time per peer.
+	ManualRecv bool
+	RecvBusy   map[string]bool
 	// ListenEvents records handler callbacks: "reset" | "+X" | "-X"
 	ListenEvents []string
 }
@@ -114,6 +118,9 @@ func (cn *ClientNode) AddRef(remote string) {
 	}
 	cn.refCancel[remote] = rcancel
 	w.S.Logf("addref %s->%s", cn.P.Name, remote)
+	if cn.ManualRecv {
+		return
+	}
 	go func() {
 		for {
 			m, err := ref.Recv(rctx)
@@ -133,6 +140,68 @@ func (cn *ClientNode) AddRef(remote string) {
 			}
 		}
 	}()
+}
+
+// StartRecv issues one application Recv call for remote (manual mode), as a task.
+func (cn *ClientNode) StartRecv(remote string) {
+	ref := cn.Refs[remote]
+	if ref == nil || cn.RecvBusy[remote] {
+		return
+	}
+	if cn.RecvBusy == nil {
+		cn.RecvBusy = map[string]bool{}
+	}
+	cn.RecvBusy[remote] = true
+	w := cn.W
+	rctx, rcancel := context.WithCancel(cn.ctx)
+	prev := cn.refCancel[remote]
+	cn.refCancel[remote] = func() { rcancel(); prev() }
+	go func() {
+		m, err := ref.Recv(rctx)
+		cn.RecvBusy[remote] = false
+		if err != nil || m == nil {
+			return
+		}
+		raw, _ := m.MarshalVT()
+		w.mu.Lock()
+		w.evSeq++
+		ev := RecvEv{At: cn.P.Name, From: remote, Payload: string(m.GetSignedMsg().GetData()), Raw: raw, Step: w.S.Step, Seq: w.evSeq}
+		w.Recvs = append(w.Recvs, ev)
+		w.mu.Unlock()
+		w.S.Logf("recv %s<-%s %q", cn.P.Name, remote, ev.Payload)
+		w.S.Count("done:recv")
+		if w.OnRecv != nil {
+			w.OnRecv(ev, m)
+		}
+	}()
+}
+
+// RecvExpired is an application Recv call whose context is already done (a receive loop with
+// per-call deadlines): it returns at once. A message it returns counts as received by the
+// application; if it returns an error the application received nothing.
+func (cn *ClientNode) RecvExpired(remote string) {
+	ref := cn.Refs[remote]
+	if ref == nil {
+		return
+	}
+	w := cn.W
+	ctx, cancel := context.WithCancel(cn.ctx)
+	cancel()
+	m, err := ref.Recv(ctx)
+	w.S.Logf("recv-with-expired-context %s<-%s err=%v got=%v", cn.P.Name, remote, err, m != nil)
+	if err != nil || m == nil {
+		return
+	}
+	raw, _ := m.MarshalVT()
+	w.mu.Lock()
+	w.evSeq++
+	ev := RecvEv{At: cn.P.Name, From: remote, Payload: string(m.GetSignedMsg().GetData()), Raw: raw, Step: w.S.Step, Seq: w.evSeq}
+	w.Recvs = append(w.Recvs, ev)
+	w.mu.Unlock()
+	w.S.Count("done:recv")
+	if w.OnRecv != nil {
+		w.OnRecv(ev, m)
+	}
 }
 
 // ReleaseRef releases the peer ref to remote (the application is done with that peer):
